@@ -360,4 +360,32 @@ structure ZDoom {τ : Type} {L : ZLib τ} {Dec : Bytes → Option Bytes} (hZ : Z
 structure ZDecErrContract {τ : Type} {L : ZLib τ} {Dec : Bytes → Option Bytes} (hZ : ZDecContract L Dec) extends ZDoom hZ where
   enter : ∀ {s : τ} {c : Bytes}, hZ.R s [] [] → Dead Dec c → B s c (budget c.length)
 
+/-! ### zlib, liblzma, libbz2 on input that has gone wrong -/
+
+/--
+Error-return convention of a zlib-style **decompressing** stream object (`inflate`, `lzma_code` on a decoder,
+`BZ2_bzDecompress`) once its input is no longer (a prefix of) a valid member.  `B s rest j`: `rest` is all the input left, at
+most `j` more bytes will be produced.  A call then answers an error code (`Z_DATA_ERROR`, `LZMA_DATA_ERROR`/`FORMAT_ERROR`/
+`MEMLIMIT_ERROR`…, `BZ_DATA_ERROR`…), or `OK`/`BUF_ERROR` under the same rules as on good input (stays inside the buffers, `OK`
+with input means progress, `BUF_ERROR` without output only when all input has been taken) — but **never `STREAM_END`**: the
+integrity check of the format is taken to be sound.  `total_in` is positive once any of the bad bytes has been consumed.
+-/
+structure LibDoom {τ : Type} {L : Lib τ} {b : Backend} {Dec : Bytes → Option Bytes} (hL : LibDecContract L b Dec) where
+  B : τ → Bytes → Nat → Prop
+  budget : Nat → Nat
+  total : ∀ {s rest j}, B s rest j → L.totalIn s = 0 → rest ≠ []
+  call : ∀ {s rest j}, B s rest j → ∀ (inp : Bytes) (room : Nat) (fl : Flush), IsPre inp rest → 0 < room →
+    ∀ r, r = L.call s inp room fl →
+    (r.ret = LibRet.dataError ∨ r.ret = LibRet.streamError) ∨
+    ((r.ret = LibRet.ok ∨ (r.ret = LibRet.bufError ∧ b ≠ Backend.bzip2)) ∧
+      r.consumed ≤ inp.length ∧ r.out.length ≤ room ∧
+      (∃ j', B r.st (rest.drop r.consumed) j' ∧ r.out.length + j' ≤ j) ∧
+      (r.ret = LibRet.ok → inp ≠ [] → 0 < r.consumed + r.out.length) ∧
+      (r.ret = LibRet.bufError → r.out = [] → r.consumed = inp.length ∧ (fl = Flush.full ∨ inp = [])) ∧
+      (inp ≠ [] → 0 < r.consumed ∨ hL.pend r.st < hL.pend s))
+
+structure LibDecErrContract {τ : Type} {L : Lib τ} {b : Backend} {Dec : Bytes → Option Bytes} (hL : LibDecContract L b Dec)
+    extends LibDoom hL where
+  enter : ∀ {s : τ} {c : Bytes}, hL.R s [] [] → Dead Dec c → B s c (budget c.length)
+
 end Sqfs.Xfrm
